@@ -136,7 +136,7 @@ class C15:
         ops.append({'op': 'transpose', 'h': 0, 'iv': sweep_iv, 'dir': sweep_dir})
         for _ in range(n):
             kind = seeds.weighted(rng, [('transpose', 6), ('back', 4), ('clone', 1.5), ('import', 1), ('dumps', 1), ('bg_pitch', 1.2),
-                                        ('bad', 1.2 if faulty else 0), ('interrupt', 2.5 if faulty else 0)])
+                                        ('bad', 1.2 if faulty else 0), ('interrupt', 3.6 if faulty else 0)])
             h = rng.randrange(16)
             if kind == 'transpose':
                 iv = rng.choice(EXTREME) if rng.random() < 0.25 else rng.choice(ALL_INTERVALS)
@@ -159,8 +159,11 @@ class C15:
                 else:
                     ops.append({'op': 'bad', 'h': h, 'iv': 'M2', 'dir': frng.choice(['sideways', 'UP', '', 'Down'])})
             else:
-                ops.append({'op': 'interrupt', 'h': h, 'iv': frng.choice(ALL_INTERVALS), 'dir': frng.choice(['up', 'down']),
-                            'k_u': frng.randrange(1 << 30), 'payload': frng.choice(['SimInterrupt', 'MemoryError'])})
+                # half of the interruptions are placed inside the copy phase (the part of the call that creates in-flight state
+                # shared with the source), the others anywhere in the call
+                ops.append({'op': 'interrupt', 'h': h, 'iv': frng.choice([i for i in ALL_INTERVALS if i != 'P1']), 'dir': frng.choice(['up', 'down']),
+                            'k_u': frng.randrange(1 << 30), 'payload': frng.choice(['SimInterrupt', 'MemoryError', 'MemoryError']),
+                            'phase': frng.choice(['copy', 'any'])})
         return {'property': self.PROPERTY, 'config': 'fault_injecting' if faulty else 'fault_free', 'class': 'core' if core else 'extended',
                 'docs': docs, 'ops': ops, 'warnings': 'error' if erng.random() < 0.1 else 'default'}
 
@@ -387,6 +390,8 @@ class C15:
                 except Exception:
                     continue
                 total = inj.count_events(lambda: replica.to_transposed(op['iv'], op['dir']))
+                if op.get('phase') == 'copy':
+                    total = min(total, inj.count_events(lambda: replica.clone()))
                 if total <= 0:
                     continue
                 k = 1 + op['k_u'] % total
